@@ -17,13 +17,16 @@ BASELINE = "cd /repo && /venv/bin/python -m pytest -ra -q -p no:cacheprovider --
 
 def main():
     ids = [json.loads(l)["id"] for l in (ROOT / "properties.jsonl").read_text().splitlines() if l.strip()]
+    # harness/claimed.txt: the checks the coordinator has seen pass on the unchanged tree (one id per line); a module that
+    # says CLAIMED but is not listed there yet is still reported as "not built yet"
+    allow = set((ROOT / "harness" / "claimed.txt").read_text().split())
     checks, na = [], []
     for pid in ids:
         try:
             P = importlib.import_module("props." + pid.lower())
         except ModuleNotFoundError:
             P = None
-        if P is not None and getattr(P, "CLAIMED", False):
+        if P is not None and getattr(P, "CLAIMED", False) and pid in allow:
             checks.append({
                 "property_id": pid,
                 "quick_cmd": f"./check {pid} --tier quick",
